@@ -44,6 +44,9 @@ func (np *NatPlus) UnmarshalCBOR(data []byte) error {
 	if err != nil {
 		return errs.Wrap(err)
 	}
+	if dto == nil {
+		return errs.Wrap(serde.ErrNull)
+	}
 	if dto.NatPlus.IsZero() == ct.True {
 		return ErrOutOfRange.WithMessage("NatPlus must be greater than 0")
 	}
@@ -69,6 +72,9 @@ func (n *Nat) UnmarshalCBOR(data []byte) error {
 	if err != nil {
 		return errs.Wrap(err)
 	}
+	if dto == nil {
+		return errs.Wrap(serde.ErrNull)
+	}
 	if dto.Nat == nil {
 		return ErrIsNil.WithMessage("Nat")
 	}
@@ -93,6 +99,9 @@ func (i *Int) UnmarshalCBOR(data []byte) error {
 	dto, err := serde.UnmarshalCBOR[*intDTO](data)
 	if err != nil {
 		return errs.Wrap(err)
+	}
+	if dto == nil {
+		return errs.Wrap(serde.ErrNull)
 	}
 	if dto.Int == nil {
 		return ErrIsNil.WithMessage("Int")
@@ -122,6 +131,9 @@ func (u *Uint) UnmarshalCBOR(data []byte) error {
 	dto, err := serde.UnmarshalCBOR[*uintDTO](data)
 	if err != nil {
 		return errs.Wrap(err)
+	}
+	if dto == nil {
+		return errs.Wrap(serde.ErrNull)
 	}
 	if dto.Modulus == nil {
 		return ErrIsNil.WithMessage("modulus")
@@ -161,6 +173,9 @@ func (r *Rat) UnmarshalCBOR(data []byte) error {
 	if err != nil {
 		return errs.Wrap(err)
 	}
+	if dto == nil {
+		return errs.Wrap(serde.ErrNull)
+	}
 	if dto.A == nil {
 		return ErrIsNil.WithMessage("numerator")
 	}
@@ -189,6 +204,9 @@ func (z *ZMod) UnmarshalCBOR(data []byte) error {
 	dto, err := serde.UnmarshalCBOR[*zmodDTO](data)
 	if err != nil {
 		return errs.Wrap(err)
+	}
+	if dto == nil {
+		return errs.Wrap(serde.ErrNull)
 	}
 	if dto.Modulus == nil {
 		return ErrIsNil.WithMessage("modulus")
